@@ -433,6 +433,22 @@ func rulesC08(e *Engine, r *Report) {
 				"a path that has called Split returns the payload it was given: when the receiver holds every part (Split answers nil) the whole payload is sent, and counted, a second time", 1)
 		}
 	}
+	// ---------------------------------------------------------------- R08.12
+	r.Rule("R08.12", "a receipt is the answer to the request that carried the payload: Transmit books parts as received (the full count on 200, the announced count on 206) only on paths where the response's own request has the method of the request that was sent, or the response names no request - Go's client follows a 301/302/303 to a PUT as a body-less GET, and the 200 of whatever page that leads to is not the receiver's")
+	if fn := needFn(e, r, "R08.12", "http.(*Client).Transmit"); fn != nil {
+		resp := "call(http.(*BandwidthLoggingClient).Do)(p0.client, §)#0"
+		cls := labeler(
+			C("("+resp+".Request.Method == §.Method)", "sameRequest"),
+			C("(§.Method == "+resp+".Request.Method)", "sameRequest"),
+			C("("+resp+".Request == nil)", "noRequest"),
+		)
+		n := 0
+		for _, pat := range []string{"store(var(n) = builtin(len)(invoke(sts.Payload.GetParts)(p1)))", "store(var(n) = call(strconv.Atoi)(§)#0)"} {
+			n += e.Guarded(r, "R08.12", "http.(*Client).Transmit: `"+shorten(pat)+"` only for an answer to the request that was sent", fn, e.instrMatch(pat), cls,
+				func(l LabelSet) bool { return l.HasAny("sameRequest", "noRequest") }, "resp.Request.Method == req.Method (no redirect was followed as another request)")
+		}
+		r.Min("R08.12", "places where Transmit books parts as received", n, 2)
+	}
 }
 
 // constOr renders a package-level string constant as a canonical literal.
